@@ -129,7 +129,13 @@ def apply_ops(l0: LT, l1: LT, l2: int, l3: LT, n: int, i: int, j: int, v: VT, w:
     if not why(same_outcome, "outcome", ops, "real", got_err, got, "rfc", exp_err, exp):
         return ok(False)
     if exp_err is None:
-        return ok(why(same_json(got, exp), "result", ops, got, exp))
+        if not why(same_json(got, exp), "result", ops, got, exp):
+            return ok(False)
+        if P.get("twice"):
+            # the result depends on the patch document and the target alone: the same patch object, applied again to an
+            # equal document after the first result has been edited by the patch's own later operations, gives the same
+            got2 = patch.apply(mkdoc(l0, l1, l2, l3, n))
+            return ok(why(same_json(got2, exp), "second application of the same patch object", ops, got2, exp))
     return ok(True)
 
 
